@@ -115,3 +115,15 @@ Fixpoint failures_from {O} (f : checker O) (n : Z) (cs : list (list O * list obs
                 end
   end.
 Definition failures {O} (f : checker O) (cs : list (list O * list obs)) := failures_from f 0 cs.
+
+(* projected comparison: the reference only speaks about part of each observation *)
+Fixpoint proj_trace {O} (proj : O -> obs -> obs) (ops : list O) (tr : list obs) : list obs :=
+  match ops, tr with
+  | o :: ops', ob :: tr' => proj o ob :: proj_trace proj ops' tr'
+  | _, _ => []
+  end.
+
+Definition cmp_proj {O} (proj : O -> obs -> obs) (ref : list O -> list obs) : checker O :=
+  fun ops tr => let m := ref ops in
+    if negb (length ops =? length tr)%nat then Some (-1, []) else
+    match first_diff 0 m (proj_trace proj ops tr) with None => None | Some i => Some (i, nth_obs m i) end.
